@@ -29,7 +29,7 @@ structure DState where
   e2eExp : ExpState := {}
   e2eColl : CState := {}
   e2eMode : Mode := .strict
-  e2eSpecDom : Nat := 0
+  e2eSpecDom : Nat × List (Nat × List IE) := (0, [])
   agg : Agg.State := {}
   aggSpec : C06.Tracker := {}
   aggCorr : C07.Tracker := {}
